@@ -26,6 +26,7 @@ DEFAULT_FEATURES = {
     "comments": True,
     "comment_special_chars": True,   # D13: backslashes / triple quotes in comments
     "empty_enum": True,              # D9: an <enum> without values
+    "free_directory_refs": True,     # any acyclic directory reference graph (else the fixed layering)
 }
 
 FIELD_NAMES = [
@@ -108,6 +109,8 @@ class _Gen:
         self.decl_order = []   # (name, kind, dir)
         self.excluded = {}     # feature -> count of candidates dropped
         self.size = SIZES["quick"]
+        # directory reference graph; the static package itself makes the packet directories depend on net
+        self.dir_edges = {("net/client", "net"), ("net/server", "net")}
 
     def drop(self, feature):
         self.excluded[feature] = self.excluded.get(feature, 0) + 1
@@ -176,8 +179,52 @@ class _Gen:
     def refresh(self):
         self.an = spec.Analysis(self.tree)
 
+    PACKET_DIRS = ("net/client", "net/server")
+    PARENTS = {"pub/server": ["pub"], "net/client": ["net"], "net/server": ["net"]}
+
+    def _reaches(self, a, b):
+        """Is there a path a ->* b in the directory reference graph?"""
+        seen, todo = set(), [a]
+        while todo:
+            x = todo.pop()
+            if x == b:
+                return True
+            if x in seen:
+                continue
+            seen.add(x)
+            todo.extend(y for (u, y) in self.dir_edges if u == x)
+        return False
+
+    def may_reference(self, dir_, d2):
+        """A declaration in dir_ may use a type declared in d2 iff the directory reference graph stays
+        acyclic (mutual references between two directories hit open finding KF1) and nothing outside the
+        packet directories reaches into them (open finding KF2). With the feature switched off, the
+        stricter fixed layering of DESIGN 4.1 applies."""
+        if d2 == dir_:
+            return True
+        if not self.f.get("free_directory_refs", True):
+            return LAYER[d2] <= LAYER[dir_]
+        if d2 in self.PACKET_DIRS and not (dir_ == "net/server" and d2 == "net/client"):
+            return False
+        # importing a module of pub/server (net/client, ...) initialises the parent package pub (net) first,
+        # whose __init__ imports all of ITS modules: a reference into a nested directory is also one into
+        # its parent
+        targets = [t for t in [d2] + self.PARENTS.get(d2, []) if t != dir_]
+        return not any(self._reaches(t, dir_) for t in targets)
+
     def visible_types(self, dir_, kind):
-        return [n for (n, k, d) in self.decl_order if k == kind and LAYER[d] <= LAYER[dir_]]
+        return [n for (n, k, d) in self.decl_order if k == kind and self.may_reference(dir_, d)]
+
+    def pick_type(self, dir_, names):
+        """Pick one of the visible type names and record the directory reference it creates."""
+        name = self.pick(names)
+        d2 = next(d for (n, k, d) in self.decl_order if n == name)
+        if d2 != dir_:
+            self.dir_edges.add((dir_, d2))
+            for par in self.PARENTS.get(d2, []):
+                if par != dir_:
+                    self.dir_edges.add((dir_, par))
+        return name
 
     # -- enums -----------------------------------------------------------------
     def gen_enum(self, dir_, name=None, nmin=1, nmax=6):
@@ -240,13 +287,13 @@ class _Gen:
         if k == "bool":
             return "bool" if self.boolean(0.6) else "bool:" + self.pick(INT_TYPES)
         if k == "enum":
-            e = self.pick(enums)
+            e = self.pick_type(dir_, enums)
             if self.boolean(0.3):
                 ov = self.pick(INT_TYPES)
                 return f"{e}:{ov}"
             return e
         if k == "struct":
-            return self.pick(structs)
+            return self.pick_type(dir_, structs)
         return k
 
     def hard_text(self, n=None):
@@ -378,7 +425,7 @@ class _Gen:
         fixed = [x for x in structs if self.an.struct_fixed_size(x)]
         if fixed and not has_length and not delimited and self.boolean(0.5):
             # the element count of such an array is derived from the struct's computed size
-            return self.pick(fixed)
+            return self.pick_type(dir_, fixed)
         if delimited:
             choices += [("string", 14), ("encoded_string", 5), ("blob", 2)]
         k = self.weighted(choices)
@@ -387,10 +434,10 @@ class _Gen:
         if k == "bool":
             return "bool" if self.boolean(0.7) else "bool:" + self.pick(INT_TYPES)
         if k == "enum":
-            e = self.pick(enums)
+            e = self.pick_type(dir_, enums)
             return f"{e}:{self.pick(INT_TYPES)}" if self.boolean(0.25) else e
         if k == "struct":
-            return self.pick(structs)
+            return self.pick_type(dir_, structs)
         return k
 
     def i_array(self, ctx, body, length=None):
@@ -714,11 +761,11 @@ def _gen_simple_body(self, dir_):
         elif k == "bool":
             ins["type"] = "bool" if self.boolean(0.3) else "bool:" + self.pick(INT_TYPES)
         elif k == "enum":
-            ins["type"] = self.pick(enums)
+            ins["type"] = self.pick_type(dir_, enums)
             if self.boolean(0.5):
                 ins["type"] += ":" + self.pick(INT_TYPES)
         elif k == "struct":
-            ins["type"] = self.pick(fixed_structs)
+            ins["type"] = self.pick_type(dir_, fixed_structs)
         else:
             ins["type"] = self.pick(["string", "encoded_string"])
             ins["length"] = str(self.draw(st.integers(1, 4)))
